@@ -56,6 +56,10 @@ CLAIMED = {
         text="(i) Hypothesis families of abstract values (integers incl. bignums, ratios, flonums, chars, strings, symbols, bytevectors, nested lists/vectors to depth 3), each realised through 2-7 independent computation routes (arithmetic leaving spare bignum words, string mutation with width changes, ports, utf8, append/reverse, vector-set! ...): all routes pairwise equal? (eqv? for numbers/chars/symbols) with equal (srfi 69) hash and string-hash, different abstract values never equal?; equal? on circular lists must terminate with the answer computed in Python; (ii) Hypothesis histories (<= 120 steps incl. bulk inserts/deletes of up to 240 keys forcing repeated growth) on SRFI 69 tables with equal?/eqv?/string=? equivalence and equal-but-not-eq duplicate keys against a Python dict keyed by equivalence class; exploration only",
         note="trusted: Python dict/Fraction; eqv? on NaN not asserted; iteration order never compared; the (srfi 128) default hash and (srfi 125) names are not exercised (SRFI 69 layer only)",
         technique="property-based testing: metamorphic route-equivalence for equal?/hash coherence + model-based stateful testing of hash tables (Hypothesis)"),
+    "C19": dict(
+        text="generated byte strings / texts / JSON values / accessor calls in batches on the ASan build with the poisoned heap: base64 (bytevector and string), quoted-printable, URI escaping (ASCII; non-ASCII is an open known finding), JSON (values of depth <= 6 with every escape class, astral characters, exponents; both json->string and string->json on Python-produced texts), UTF-8 with ranges, (scheme bytevector) accessors of every width/signedness/endianness at in-range and out-of-range offsets, (srfi 160) vectors; oracles: decode(encode(x)) = x, Python's decoder for the same format accepts the encoder output and yields x (base64, quopri, urllib, json, struct.pack), out-of-range accessor calls raise, and hostile (random / mutated) input to every decoder returns or raises without crash or timeout; exploration only",
+        note="trusted: Python's codecs; JSON integral floats and integers are identified (JSON has one number type); (chibi csv) is not exercised; one open known finding (URI escaping of non-ASCII text) is excluded by construction",
+        technique="round-trip and differential property-based testing against Python's reference codecs, plus fuzzing of decoders under ASan with a poisoned heap"),
 }
 
 NOT_YET = "check not built yet in this session (planned, see DESIGN.md section 4)"
